@@ -205,6 +205,9 @@ func c05Run(run *ev.Run) {
 		o5 := c05Opts(run.Tier, spec)
 		m := o5.model(c05Monitor(run, spec))
 		m.MaxDepth = depth
+		if run.Tier == "thorough" && i > 0 {
+			m.MaxDepth = depth - 1 // depth 7 for the first configuration, 6 for the others (time budget)
+		}
 		if i == len(specs)-1 {
 			// the session cookie inside sloppy Cookie headers (trailing ';', pair without value, junk, a comma-smuggled
 			// second pair): two sessions, two levels less
@@ -235,7 +238,7 @@ func c05Run(run *ev.Run) {
 	for _, store := range []string{"memory", "redis"} {
 		w := world.New(world.Spec{Store: store, Forward: true, Logout: true, RealGen: true})
 		bad := 0
-		for v := 0; v < visitors && bad == 0; v++ {
+		for v := 0; v < visitors && bad == 0 && !run.Expired(); v++ {
 			r1 := w.Do(world.Req{Path: fmt.Sprintf("/v%d", v)}, world.Plan{})
 			s1 := w.SessionFromSetCookie(r1)
 			r2 := w.Do(world.Req{Path: fmt.Sprintf("/v%d/again", v), Cookie: s1}, world.Plan{})
